@@ -461,6 +461,7 @@ fn sched_exec(c: &Cfg, prefix: &[usize]) -> Exec<Result<Vec<Vec<Item>>, String>>
         })),
         monitor: None,
         step_log: None,
+        free_receivers: vec![],
     };
     let c = c.clone();
     sched::run(cfg, move |_ctl| {
